@@ -413,7 +413,7 @@ def C11(ctx):
     q = ctx.quick
     mc(ctx, "MC_Headers", law_cfg("HvalLaws", "hval", 4 if q else 6), label="HvalLaws")
     fn_campaign(ctx, [("hval", 4 if q else 6)], [("hval", 3000 if q else 100000)])
-    req_campaign(ctx, [("mut_struct", 0), ("mut_hdr", 0 if q else 1), ("spell", 0), ("reqfold", 0), ("reqs", 0)]
+    req_campaign(ctx, [("mut_struct", 0), ("mut_hdr", 0 if q else 1), ("spell", 0), ("reqfold", 0), ("reqs", 0), ("charsets", 0)]
                  + ([] if q else [("base", 1)]))
     suite_campaign(ctx, only=r"header")
     logical_campaign(ctx, 400 if q else 20000)
